@@ -111,3 +111,25 @@ reg("C08", "c08", [("kernels", "plain", 1)], "exploration",
                "eigen-decomposition of max_step) and by C-vs-Python agreement, with sentinel words around the addressed blocks.",
     level_note="Trusts numpy and vlib/ref_cone.py; the Python fallbacks are obtained by an AST transform of the tree's misc.py.",
     design_ref="4/C08")
+
+reg("C07", "c07", [("direct", "plain", 2), ("scaling", "plain", 1), ("insolve", "plain", 1)], "exploration",
+    rule="direct: Hypothesis draws (G, A, optional H=BB', Df for mnl 0-3) satisfying the rank assumptions (SVD), dense or "
+         "sparse, and a history of 1-4 factor calls (each with its own W built from the definition, H, Df) with 1-2 "
+         "right-hand sides each; every built-in solver applicable (ldl, ldl2, chol, chol2 for pure-'l', qr without H/mnl) "
+         "runs the history on one factory; each solve is judged by the backward error of the documented block system "
+         "(dense numpy K), pairwise agreement and agreement with a fresh factory. scaling: compute_scaling on interior "
+         "(s,z) then 0-3 update_scaling calls on new interior iterates expressed in the current scaling. insolve: real "
+         "conelp/coneqp solves with compute_scaling/update_scaling wrapped and a checking kktsolver. "
+         "Non-trivial = q/s block of size >=2 with >=2 factor calls or mnl>0 (direct), >=1 update (scaling), >=2 "
+         "scalings observed (insolve); distinct = SHA-1 of case JSON.",
+    assumptions=["W conditioning bounded in the generator (cond(r) <= 1e2); in-solve KKT residuals only judged while "
+                 "cond(W) <= 1e4 (the contract is 'to working accuracy')",
+                 "a solve routine is only used until the next factor call on the same factory (as every caller does)",
+                 "results compared on ux, uy and the lower triangles of W*uz"],
+    technique="model-based property testing of factor/solve histories against a dense numpy KKT model; differential among the five solvers; invariant checking of scalings",
+    level_text="Generated factor/solve histories on every built-in KKT solver judged by backward error against a dense "
+               "numpy model of [P A' G'; A 0 0; G 0 -W'W], pairwise and fresh-factory agreement; NT scalings judged by "
+               "their documented invariants and W z = W^-T s = lambda after creation and every update, both in "
+               "isolation and on the stream of W produced inside real solves.",
+    level_note="Trusts numpy and vlib/ref_cone.py + vlib/ref_kkt.py (apply_W, packed KKT assembly).",
+    design_ref="4/C07")
